@@ -189,6 +189,8 @@ pub fn run_check(spec: &CheckSpec, base_seed: u64, thorough: bool, threads: usiz
     let distinct_states = Distinct::new(log2);
     let merged = Mutex::new((Acc::default(), Vec::<(u64, Value)>::new(), Vec::<(u64, u64, Failure)>::new(), BTreeMap::<String, u64>::new(), 0u64, 0u64, Vec::<(u64, String)>::new(), 0u64));
     let had_new = AtomicBool::new(false);
+    let count_only = std::env::var("VERIF_COUNT_ONLY").is_ok();
+    let failing_runs = AtomicU64::new(0);
     let harness_errors: Mutex<Vec<String>> = Mutex::new(vec![]);
     let digest_sum = AtomicU64::new(0);
     std::thread::scope(|s| {
@@ -223,6 +225,9 @@ pub fn run_check(spec: &CheckSpec, base_seed: u64, thorough: bool, threads: usiz
               if let Some(f) = r.failure {
                 if let Some(k) = match_known(&known, spec.property, &f.violation) {
                   *my_known.entry(format!("{} {}", k.label, k.description)).or_insert(0) += 1;
+                } else if count_only {
+                  // measurement mode (VERIF_COUNT_ONLY=1): count failing runs, do not stop or minimise
+                  failing_runs.fetch_add(1, Ordering::Relaxed);
                 } else {
                   had_new.store(true, Ordering::Relaxed);
                   stop_at.fetch_min(idx, Ordering::Relaxed);
@@ -243,6 +248,7 @@ pub fn run_check(spec: &CheckSpec, base_seed: u64, thorough: bool, threads: usiz
         });
       }
     });
+    if count_only { println!("[count-only] campaign {}: {} failing runs of {}", cname, failing_runs.load(Ordering::Relaxed), n); }
     let herrs = harness_errors.into_inner().unwrap();
     if !herrs.is_empty() { for e in &herrs { eprintln!("harness error: {}", e); } return CheckReport { violations: 0, exit: 2 }; }
     let (acc, mut samp, mut fails, kn, nt_runs, runs_done, mut panics, evals_done) = merged.into_inner().unwrap();
